@@ -174,7 +174,9 @@ reg(Spec(
 sshd("C06")
 
 reg(Spec(
-    "C10", "Props/C10.v", harness="pipeline", race=True, thorough_extra=daemon_extra("C10", 60, 600),
+    "C10", "Props/C10.v", harness="pipeline", race=True,
+    thorough_extra=daemon_extra("C10", 60, 600) + [("jsonenc", {}, ["-n", "700"], False, ["-n", "60"])],
+    extra_targets=["Model/JsonEncCheck.vo"],
     args_quick=["-n", "60"],
     args_thorough=["-n", "1500"],
     args_search=["-n", "400"],
